@@ -16,7 +16,8 @@ MAJORS = (0, 1, 2, 3, 4, 2**32 - 1)
 MINORS = (0, 9, 10, 11)
 EXPECTED = "mydev"
 ORDERS = ("two-chunks", "one-chunk", "bytewise", "connect-first", "verdict-twice", "hello-twice", "one-chunk+DR", "then-DR")
-NOISE_NAMES = ("absent", "equal", "different", "empty")
+NOISE_NAMES = ("absent", "equal", "different", "empty", "case")
+HELLO_NAMES = ("empty", "equal", "other", "case", "longer")  # near misses: names are compared exactly
 
 
 def one_case(c: dict[str, Any]) -> dict[str, Any]:
@@ -26,8 +27,8 @@ def one_case(c: dict[str, Any]) -> dict[str, Any]:
 
     noise = c["noise"]
     exp_name = EXPECTED if c["expected"] else None
-    hello_name = {"empty": "", "equal": EXPECTED, "other": "otherdev"}[c["name"]]
-    nname = {"absent": None, "equal": EXPECTED, "different": "otherdev", "empty": ""}[c.get("noise_name", "equal")]
+    hello_name = {"empty": "", "equal": EXPECTED, "other": "otherdev", "case": "MyDev", "longer": "mydev1"}[c["name"]]
+    nname = {"absent": None, "equal": EXPECTED, "different": "otherdev", "empty": "", "case": "MYDEV"}[c.get("noise_name", "equal")]
     via_setter = c.get("via") == "setter"
     w = ConnWorld(noise=noise, client=True, expected_name=None if via_setter else exp_name, password="pw" if c["password"] else None,
                   login=c["login"], device_name=nname if noise else hello_name)
@@ -190,7 +191,7 @@ def cases(tier: str) -> list[dict[str, Any]]:
     majors = MAJORS if tier == "quick" else tuple(sorted(set(MAJORS) | set(range(0, 12)) | {127, 128, 255, 256, 65535, 2**31 - 1, 2**31}))
     minors = MINORS if tier == "quick" else tuple(sorted(set(MINORS) | set(range(0, 16)) | {255, 65535, 2**32 - 1}))
     for major, minor, name, expected, login, password, invalid, order in itertools.product(
-        majors, minors, ("empty", "equal", "other"), (False, True), (False, True), (False, True), (False, True), ORDERS
+        majors, minors, HELLO_NAMES, (False, True), (False, True), (False, True), (False, True), ORDERS
     ):
         if not login and (invalid and order not in ("connect-first",)):
             continue  # no verdict is sent without login (except the unsolicited one)
@@ -200,7 +201,7 @@ def cases(tier: str) -> list[dict[str, Any]]:
                     "password": password, "invalid": invalid, "order": order})
     # the expected name configured through the setter after start_connection(): same verdicts
     for noise_flag in (False, True):
-        for major, name, login, invalid, order, nn in itertools.product((1, 3), ("empty", "equal", "other"), (False, True), (False, True),
+        for major, name, login, invalid, order, nn in itertools.product((1, 3), HELLO_NAMES, (False, True), (False, True),
                                                                         ("two-chunks", "one-chunk", "one-chunk+DR"), NOISE_NAMES if noise_flag else ("equal",)):
             if not login and invalid:
                 continue
@@ -212,7 +213,7 @@ def cases(tier: str) -> list[dict[str, Any]]:
     noise_orders = ORDERS
     noise_majors = (0, 1, 2, 3, 4, 2**32 - 1)
     for nn, major, name, expected, login, invalid, order in itertools.product(
-        NOISE_NAMES, noise_majors, ("empty", "equal", "other"), (False, True), (False, True), (False, True), noise_orders
+        NOISE_NAMES, noise_majors, HELLO_NAMES, (False, True), (False, True), (False, True), noise_orders
     ):
         if not login and invalid:
             continue
